@@ -1,5 +1,6 @@
 import PyrollProofs.HookOrderLemmas
 import PyrollProofs.HookEvalLemmas
+import PyrollProofs.HookUseLemmas
 
 /-!
 # C01 — hook resolution order is a pure function of the registrations and the class hierarchy
@@ -7,7 +8,9 @@ import PyrollProofs.HookEvalLemmas
 Model: `PyrollModel/HookReg.lean` (six stores per class, lazily created per-subclass hook objects, `functions_gen`),
 `PyrollModel/HookEval.lean` (`get_result` / `HookFunction.__call__`: wrappers, per-(function, object) re-entrancy marks),
 `PyrollModel/HookOps.lean` (histories: the concrete machine `run` and the abstract machine `arun` = class hierarchy +
-log of live registrations, which ignores every mere access).  Tied to `pyroll/core/hooks.py` by the correspondence
+log of live registrations, which ignores every mere access), `PyrollModel/HookUse.lean` (objects that are used several
+times: the marks as STATE with the `try … finally` of `HookFunction.__call__`, implementations that fail while the input
+of their object is missing, `has_value`, `reevaluate_cache`, the value cache).  Tied to `pyroll/core/hooks.py` by the correspondence
 harness `driver/props/c01.py`.  Only property theorems live here; helper lemmas are in `PyrollProofs/Hook*Lemmas.lean`.
 
 All theorems quantify over EVERY history `ops : List Op` (class definitions with arbitrary `__mro__` data - ill-formed
@@ -462,5 +465,101 @@ example :
     readOut (run [.defClass 0 [0] true, .add 0 .normal false (.ret none), .add 0 .normal true (.wrap 2 none),
       .add 0 .normal true (.wrap 1 (some 7))]) 0 =
     (some 7, [.enter 2, .cyc 2, .enter 1, .cyc 2, .cyc 1, .call 0, .exit 1, .call 0, .exit 2]) := by decide
+
+/-! ## objects that are used again: reads that fail, `has_value`, `reevaluate_cache`
+
+`evx` (PyrollModel/HookUse.lean) is `ev` with the re-entrancy marks as state that every call receives and hands back,
+implementations that raise while the input of their object is missing or unusable, plain implementations that take the
+`cycle` argument, and the `finally` clause of `HookFunction.__call__` written out on the normal and on the exceptional
+path.  `urun` runs a use-history: the operations of the registry machine, registrations of implementations that need
+the input, objects that stay, their input being removed / spoiled / supplied, attribute reads, `has_value` probes and
+`reevaluate_cache` on them - the marks are kept from one operation to the next. -/
+
+/-- **The re-entrancy mark is cleared on every path.**  Whatever a call does - it yields a value, `None`, an
+implementation or the chain inside a wrapper raises, the recursion is cut off - it hands the marks back exactly as it
+found them (every chain, every side table, every input state, any marks found). -/
+theorem marks_restored_on_every_path (chainOf : Cls → List HF) (fl : Flags) (s fuel : Nat) (full rest : List HF)
+    (i depth : Nat) (act : List (Nat × Nat)) (tr : List Ev) :
+    (evx chainOf fl s fuel full rest i depth act tr).marks = act := evx_marks chainOf fl s fuel full rest i depth act tr
+
+-- a wrapper (0) around an implementation (1) that fails for a missing input: the exception comes out, the wrapper was
+-- entered and never left, and no mark stays behind
+example :
+    evx (fun _ => []) ⟨fun i => i == 1, fun i => i == 1⟩ 0 10 [⟨0, true, .wrap 1 none⟩, ⟨1, false, .ret (some 4)⟩]
+      [⟨0, true, .wrap 1 none⟩, ⟨1, false, .ret (some 4)⟩] 0 0 [] [] = ⟨.err true, [.enter 0, .cyc 0, .call 1], []⟩ := by
+  decide
+
+-- what the theorem excludes: were the marks of that failed call still there, the same object - now WITH its input -
+-- would be told `cycle=True` on a top-level read: wrapper and implementation step aside, the fallback (2) answers
+example :
+    let chain : List HF := [⟨0, true, .wrap 1 none⟩, ⟨1, false, .ret (some 4)⟩, ⟨2, false, .ret (some 5)⟩]
+    (evx (fun _ => []) ⟨fun i => i == 1, fun i => i == 1⟩ 2 10 chain chain 0 0 [(0, 0), (1, 0)] []).res = .val (some 5) ∧
+    (evx (fun _ => []) ⟨fun i => i == 1, fun i => i == 1⟩ 2 10 chain chain 0 0 [] []).res = .val (some 41) := by decide
+
+-- a wrapper (1) that reads the input before its yield, inside another wrapper (0): `next(gen)` raises, both marks go
+example :
+    let chain : List HF := [⟨0, true, .wrap 1 none⟩, ⟨1, true, .wrap 3 none⟩, ⟨2, false, .ret (some 2)⟩]
+    evx (fun _ => []) ⟨fun i => i == 1, fun _ => false⟩ 1 10 chain chain 0 0 [] [] =
+      ⟨.err false, [.enter 0, .cyc 0, .enter 1], []⟩ ∧
+    (evx (fun _ => []) ⟨fun i => i == 1, fun _ => false⟩ 2 10 chain chain 0 0 [] []).res = .val (some 231) := by decide
+
+/-- between two operations of a use-history no mark is set - also after reads, `has_value` probes and re-evaluations
+that failed -/
+theorem no_mark_survives (l : List UOp) : (urun l).marks = [] := by
+  unfold urun; rw [ufoldl_marks]; rfl
+
+/-- **A used object resolves like an unused one.**  After any use-history - whatever was read on the object before, too
+early, with unusable input, successfully, through `has_value` or `reevaluate_cache`, and whatever happened to other
+objects - the evaluation the next use of object `o` performs (`evalObj`, what `ustep` runs for `get` / `has` / `reeval`
+when a value has to be computed) is the evaluation `freshOut` on an object of the same class and input that was never
+touched: same outcome (value, `None` or exception), same invocations. -/
+theorem used_object_resolves_as_unused (l : List UOp) (ob : Obj) :
+    evalObj (urun l) ob = freshOut (urun l).reg (urun l).flags ob.cls ob.inp := by
+  simp only [evalObj, freshOut, no_mark_survives]
+
+/-- hook on class 0: a trylast fallback (0), an implementation that needs the input and takes `cycle` (1), a cooperating
+wrapper (2); object 0 is read too early, probed with `has_value`, then its input is supplied -/
+def tooEarly : List UOp :=
+  [.reg (.defClass 0 [0] true), .reg (.add 0 .last false (.ret (some 5))), .addNeed 0 .normal 4 true,
+    .reg (.add 0 .normal true (.wrap 1 none)), .newObj 0 0, .get 0, .has 0, .setInp 0 2]
+
+example :
+    -- the early read fails inside the wrapper …
+    evalObj (urun (tooEarly.take 5)) ⟨0, 0, none⟩ = ⟨.err true, [.enter 2, .cyc 2, .call 1], []⟩ ∧
+    -- … and once the input is there the object resolves as any other: wrapper applied once, the implementation answers
+    findObj (urun tooEarly).objs 0 = some ⟨0, 2, none⟩ ∧
+    evalObj (urun tooEarly) ⟨0, 2, none⟩ = ⟨.val (some 41), [.enter 2, .cyc 2, .call 1, .exit 2], []⟩ ∧
+    (urun tooEarly).marks = [] := by decide
+
+/-- **The order does not depend on what objects were used for.**  After a use-history the chain of every class is the
+chain after its registry operations alone (`regOps`: class definitions, registrations - those of implementations that
+need the input included -, removals, accesses): the documented pure function of `__mro__` and live registrations.  Failed
+reads, probes, re-evaluations and cached values have no influence on it, nor on the read of a fresh object. -/
+theorem use_history_order (l : List UOp) (c : Cls) :
+    implOrder (urun l).reg c = specOrder ((run (regOps l)).mro c) (liveLog (regOps l)) ∧
+    implOrder (urun l).reg c = implOrder (run (regOps l)) c ∧
+    readOut (urun l).reg c = readOut (run (regOps l)) c := by
+  have ho : implOrder (urun l).reg = implOrder (run (regOps l)) := by
+    funext k
+    rw [(urun_rel l).implOrder_eq, (rel_run (regOps l)).implOrder_eq]
+  refine ⟨?_, congrFun ho c, by simp only [readOut, ho]⟩
+  rw [congrFun ho c, order_refines]
+
+example :
+    (regOps tooEarly).length = 4 ∧ (implOrder (urun tooEarly).reg 0).map (·.id) = [2, 1, 0] := by decide
+
+/-- **With its input, a used object resolves exactly like a fresh one** - the read `C().h` after the registry operations
+of the history, to which every theorem above applies (order, scope, first result that is not `None`, each wrapper once):
+same value, same invocation trace, no mark left.  No side condition: the table of `cycle`-taking implementations names
+plain constant implementations only (`urun_sep`), so none of them is ever told `cycle=True` on such a read. -/
+theorem used_object_with_input_resolves_as_fresh_read (l : List UOp) (ob : Obj) (hs : ob.inp = 2) :
+    evalObj (urun l) ob =
+      ⟨.val (readOut (run (regOps l)) ob.cls).1, (readOut (run (regOps l)) ob.cls).2, []⟩ := by
+  rw [← (use_history_order l ob.cls).2.2]
+  simp only [evalObj, no_mark_survives, hs, readOut]
+  exact evx_eq_ev _ _ (urun_sep l) _ _ _ _ _ _ _ (urun_sep l ob.cls) (urun_sep l ob.cls) (fun _ h => by cases h)
+
+example :
+    readOut (run (regOps tooEarly)) 0 = (some 41, [.enter 2, .cyc 2, .call 1, .exit 2]) := by decide
 
 end Hooks
